@@ -139,6 +139,7 @@ class Env(object):
         self.write_calls = 0
         self.frames_seen = 0
         self.who = None
+        self.rx_raw = bytearray() if cfg.get('keep_rx') else None
         self.open_by = {}
         self.mutated = False
         self.policy_flip = 0
@@ -312,6 +313,8 @@ class Env(object):
                     sizes.append(c)
             k = sizes[self.ch.choose('wcap', len(sizes))]
         self.host_bytes += k
+        if self.rx_raw is not None:
+            self.rx_raw += data[:k]
         self.dev.feed(bytes(data[:k]))
         return k
 
